@@ -106,8 +106,10 @@ def gen_cases(tier, seed):
         pool = small_pool(sym, npool)
         for na in (1, 2):
             for nb in (1, 2):
+                np_ = npool if na + nb <= 3 else 2
+                idx_, pool_ = small_index_specs(sym, npool=np_), small_pool(sym, np_)
                 for k in range(1, min(na, nb) + 1):
-                    for a, b, axes, vname in gen_small_pairs(sym, na, nb, k, idx, pool, seed=seed):
+                    for a, b, axes, vname in gen_small_pairs(sym, na, nb, k, idx_, pool_, seed=seed):
                         n += 1
                         for ferm in (False, True):
                             aa, bb = (a, b) if not ferm else (_fermi(a, 1), _fermi(b, 2))
@@ -124,7 +126,7 @@ def gen_cases(tier, seed):
                 yield {"contract": "C06.modes_agree", "a": a2, "b": b2, "axes": axes2, "variant": "same", "prefuse": pf2}
                 yield {"contract": "C06.fuse_free_commutes", "a": aa, "b": bb, "axes": axes, "prefuse": pf2}
     rng = np.random.default_rng([seed, 606])
-    n_rand = 24000 if quick else 500000
+    n_rand = 40000 if quick else 1200000
     for i in range(n_rand):
         sym = ALL_SYMS[i % len(ALL_SYMS)]
         ferm = bool((i // 5) % 2)
@@ -165,19 +167,20 @@ def _is_struct_msg(msg):
 
 
 def _base_feats(d, a, b):
-    sym = d["a"]["sym"]
     ferm = bool(d["a"].get("fermionic", False))
     pf = d.get("prefuse")
     return {
-        "sym": sym,
+        "sym": d["a"]["sym"],
         "fermionic": ferm,
         "prefused_free_leg": bool(pf),
         "lone_free_leg": bool(pf and pf.get("lone")),
-        "variant": d.get("variant", "same"),
-        "parity_a": G.par(sym, a.charge),
-        "parity_b": G.par(sym, b.charge),
-        "lazy": bool(ferm and (getattr(a, "_phases", None) or getattr(b, "_phases", None))),
     }
+
+
+def _details(d, a, b):
+    sym = d["a"]["sym"]
+    lazy = bool(getattr(a, "_phases", None) or getattr(b, "_phases", None))
+    return f" [ranks {a.ndim}x{b.ndim} axes={d['axes']} partner_table={d.get('variant', 'same')} parities={G.par(sym, a.charge)}/{G.par(sym, b.charge)} pending_signs={lazy}]"
 
 
 def equal_up_to_zero_padding(x, y):
@@ -243,6 +246,8 @@ def check_modes(d):
             for suffix, msg in compare_with_dense(ref, full, tabs, duals, G.add(d["a"]["sym"], a.charge, b.charge)):
                 fails.append((f"C06.modes_agree.dense_{suffix}", f"blockwise: {msg}", dict(feats0, mode="blockwise")))
     nontrivial = bool(ref is not None and ref.blocks)
+    det = _details(d, a, b)
+    fails = [(ob, what + det, f) for ob, what, f in fails]
     return {
         "fingerprint": ("modes", spec_struct(d["a"]), spec_struct(d["b"]), repr(axes)),
         "nontrivial": nontrivial,
@@ -281,7 +286,6 @@ def check_fuse_then_contract(d):
     axa, axb = norm_axes(axes, a.ndim, b.ndim)
     k = len(axa)
     feats0 = _base_feats(d, a, b)
-    feats0["k"] = k
     ferm = feats0["fermionic"]
     fails = []
     ok, ref = _call(sr.tensordot, a, b, (axa, axb), mode="blockwise", preserve_array=True)
@@ -332,6 +336,8 @@ def check_fuse_then_contract(d):
                 oks, msg = arrays_equal(p_, q_, exact=True, check_subinfo=True, why=True)
                 if not oks:
                     fails.append(("C06.fuse_strategies_agree", f"{tag}.fuse(mode='insert') != {tag}.fuse(mode='concat'): {msg}"[:300], feats0))
+    det = _details(d, a, b)
+    fails = [(ob, what + det, f) for ob, what, f in fails]
     return {
         "fingerprint": ("ftc", spec_struct(d["a"]), spec_struct(d["b"]), repr(axes)),
         "nontrivial": bool(ref.blocks) and k >= 1,
@@ -399,6 +405,8 @@ def check_fuse_free(d):
         oke, msg2 = equal_up_to_zero_padding(u1, u2)
         if not oke:
             fails.append(("C06.fuse_free_commutes.values", f"mode={mode}: fuse-before vs fuse-after differ beyond zero padding: {msg2} (fused form: {msg})"[:300], f1))
+    det = _details(d, a, b)
+    fails = [(ob, what + det, f) for ob, what, f in fails]
     return {
         "fingerprint": ("ffc", spec_struct(d["a"]), spec_struct(d["b"]), repr(d["axes"]), which, repr(group), fm),
         "nontrivial": nontrivial,
